@@ -355,12 +355,13 @@ class LiteralMethod(DeserializationMethod):
 
     def deserialize(self, data: Any) -> Any:
         try:
-            return self.value_map[data]
+            return self.value_map[isinstance(data, bool), data]
         except KeyError:
             if self.coercer is not None:
                 for cls in self.types:
                     try:
-                        return self.value_map[self.coercer(cls, data)]
+                        coerced = self.coercer(cls, data)
+                        return self.value_map[isinstance(coerced, bool), coerced]
                     except (KeyError, TypeError):
                         pass
             raise ValidationError(format_error(self.error, data))
